@@ -32,3 +32,48 @@ Definition run_mm (def : list N) (cands : list (list N)) : string :=
   join " " (map (fun c =>
     let m := mnemonic_match def c in
     show_bool m ++ show_bool (mnemonic_compare def c) ++ show_bool m ++ show_bool m ++ "F") cands).
+
+(* ---- kind dev (C13, C15, C16): device-level histories ---- *)
+From VF Require Import Fmt Status.
+Inductive dstep :=
+| DMsg (mav : bool) (units : list sop)
+| DSetCond (r : regname) (c : N)
+| DSetTst (t : option Z).
+
+Definition render_item (i : ritem) : list N :=
+  match i with
+  | RNum n => fmt_N n
+  | RInt z => fmt_Z z
+  | RErr e => fmt_Z (ecode e) ++ [44]
+              ++ fmt_quoted (error_message e ++ match eext e with Some x => 59 :: x | None => [] end)
+  end.
+Definition render_units (us : list (list ritem)) : list N :=
+  match us with
+  | [] => []
+  | _ => intercalate [59] (map (fun u => intercalate [44] (map render_item u)) us) ++ [10]
+  end.
+
+Definition show_reg (r : evreg) : string :=
+  show_N (condition r) ++ "," ++ show_N (event r) ++ "," ++ show_N (enable r) ++ ","
+  ++ show_N (ntr_filter r) ++ "," ++ show_N (ptr_filter r).
+Definition show_dev (d : dev) (hook : nat) : string :=
+  "q=" ++ match queue d with [] => "-" | q => join "," (map show_error q) end
+  ++ ";esr=" ++ show_N (esr d) ++ ";ese=" ++ show_N (ese d) ++ ";sre=" ++ show_N (sre d)
+  ++ ";o=" ++ show_reg (oper d) ++ ";u=" ++ show_reg (ques d) ++ ";h=" ++ show_nat hook.
+
+Fixpoint run_dev_steps (d : dev) (steps : list dstep) : list string :=
+  match steps with
+  | [] => []
+  | DMsg mav units :: rest =>
+    match msg_run mav d units [] with
+    | (d', out, None) => ("OK " ++ show_bytes (render_units out) ++ " " ++ show_dev d' 0) :: run_dev_steps d' rest
+    | (d', _, Some e) => (show_error e ++ " - " ++ show_dev d' 1) :: run_dev_steps d' rest
+    end
+  | DSetCond r c :: rest =>
+    let d' := put_reg d r (reg_set_condition (get_reg d r) c) in
+    ("- - " ++ show_dev d' 0) :: run_dev_steps d' rest
+  | DSetTst t :: rest =>
+    let d' := set_tst d t in
+    ("- - " ++ show_dev d' 0) :: run_dev_steps d' rest
+  end.
+Definition run_dev (steps : list dstep) : string := join " | " (run_dev_steps dev_init steps).
